@@ -306,7 +306,8 @@ CodeClassOf(m) ==
 (* Alphabet, the Alphabet without the named key, exactly the required set)  *)
 (***************************************************************************)
 Base    == {{}, {"X"}, {"M1"}, {"CMT"}, {"ALPHA"}, {"IRMAJ"}, {"IR1"}}
-KeySets == {{"KEY"}, {"KEY", "CMT"}, {"KEY", "ALPHA"}, {"KEY", "M1"}, {"KEY", "X"}}
+KeySets == {{"KEY"}, {"KEY", "CMT"}, {"KEY", "ALPHA"}, {"KEY", "M1"}, {"KEY", "X"},
+            {"ALPHA", "X"}, {"ALPHA", "M1"}}       \* the Alphabet with somebody else's key instead of the named one
 NNSSets == {{"OWNER"}, {"ADMIN"}, {"OWNER", "KEY"}, {"ADMIN", "KEY"}, {"KEY"}, {"X", "KEY"}, {"CMT", "KEY"}}
 SigSets == {{"ARGSIG"}, {"ARGSIG", "X"}}
 GasSets == {{"VIAGAS", "KEY"}, {"VIAGAS", "X"}, {"VIAGAS", "ALPHA"}}
